@@ -2,6 +2,7 @@ CONSTANTS
   MaxIn = 1
   OutK = 1
   InK = 2
+  NEnt = 5
   MaxWS = 1
   MalWS = 0
   WS <- WS1
